@@ -340,6 +340,53 @@ def check_setters(X, cls, obj, view, buf, want, ctx, rnd, P):
     return want
 
 
+def check_whole_assign(X, cls, obj, view, buf, want, ctx, rnd, P):
+    """C10/C06: assign a whole nested array of equal size (possibly another shape) through one alias after the other alias has
+    already looked at the field; both must then show the new value"""
+    if not X.struct.is_struct(cls) or view is None:
+        return want
+    tk = type_key(X, cls)
+    for f in cls._fields:
+        FT = f.ftype
+        if not (X.array.is_array(FT) and X.scalar.is_scalar(FT._itemtype)):
+            continue
+        cur = np.array(want[f.name], dtype=FT._itemtype._dtype)
+        if cur.size == 0:
+            continue
+        dyn = [d is None for d in FT._shape]
+        if len(FT._shape) >= 2 and all(dyn) and cur.shape[0] != cur.shape[-1]:
+            newv = (np.arange(cur.size).reshape(cur.shape[::-1]) % 100).astype(cur.dtype)  # same size, transposed shape
+            kind = "reshaped"
+        else:
+            newv = ((cur.astype("int64") + 1) % 100).astype(cur.dtype)
+            kind = "same-shape"
+        first, second = (obj, view) if rnd.random() < 0.5 else (view, obj)
+        try:
+            plain(X, getattr(first, f.name))  # the first alias looks at the field
+            setattr(second, f.name, newv)
+        except Exception as e:  # noqa
+            P.add("C10", f"whole-assign:{len(FT._shape)}d:{kind}:raised:{type(e).__name__}", field=f.name, problem=str(e)[:200], **ctx)
+            continue
+        P.evals += 1
+        want = dict(want)
+        want[f.name] = norm(X, FT, newv.tolist())
+        for nm, h in (("writer", second), ("other-alias", first)):
+            try:
+                got = plain(X, h)
+            except Exception as e:  # noqa
+                got = f"raised {type(e).__name__}"
+            if not eq(got, want):
+                P.add("C10" if nm == "writer" else "C06", f"whole-assign:{len(FT._shape)}d:{kind}:{nm}", field=f.name, got=repr(got)[:200], expected=repr(want)[:200], **ctx)
+                break
+        try:
+            dv, _ = Decoder(X, image(buf)).decode(cls, ctx["offset"])
+            if not eq(dv, want):
+                P.add("C10", f"whole-assign-decode:{len(FT._shape)}d:{kind}", field=f.name, decoded=repr(dv)[:200], **ctx)
+        except LayoutError as e:
+            P.add("C10", f"whole-assign-layout:{len(FT._shape)}d:{kind}", field=f.name, problem=str(e), **ctx)
+    return want
+
+
 def check_misuse(X, cls, obj, buf, want, ctx, rnd, P):
     """C11: operations that cannot be honoured raise and change nothing"""
     tk = type_key(X, cls)
@@ -381,6 +428,10 @@ def check_misuse(X, cls, obj, buf, want, ctx, rnd, P):
                 expect_error(f"update-longer:{dyn}items", lambda: obj._update(longer))
             if len(want) > 1 and not isinstance(item, (dict, list, tuple)):
                 expect_error(f"update-shorter:{dyn}items", lambda: obj._update(list(want)[:-1]))
+                if cls._shape[0] is None:
+                    # a same-class array object of another length (same slot-rounded byte size for small items)
+                    other = cls(list(want)[:-1], _buffer=buf)
+                    expect_error(f"update-from-array-of-other-length:{dyn}items", lambda: obj._update(other))
     if X.struct.is_struct(cls):
         for f in cls._fields:
             if f.ftype is X.String:
@@ -428,6 +479,21 @@ def check_refs(X, sl, rnd, P):
         foreign.a = 12
         if obj.r._buffer is not buf or obj.r.a != 11:
             P.add("C08", "bind-foreign:copied", **ctx)
+        # an object of another (compatible) type living in the same buffer is converted, not reinterpreted in place
+        arr3 = X.Float64[3]([7.0, 8.0, 9.0], _buffer=buf)
+        try:
+            obj.ra = arr3
+            got = plain(X, obj.ra)
+            dv, _ = Decoder(X, image(buf)).decode(R1, obj._offset)
+            if not eq(got, [np.float64(7.0), np.float64(8.0), np.float64(9.0)]) or not eq(dv["ra"], got):
+                P.add("C08", "bind-other-type-same-buffer", got=repr(got)[:120], decoded=repr(dv["ra"])[:120], **ctx)
+                P.add("C01", "ref:bind-other-type-same-buffer", got=repr(got)[:120], **ctx)
+        except LayoutError as e:
+            P.add("C08", "bind-other-type-same-buffer", problem=str(e), **ctx)
+            P.add("C01", "ref:bind-other-type-same-buffer", problem=str(e), **ctx)
+        except Exception as e:  # noqa
+            P.add("C08", f"bind-other-type-same-buffer:raised:{type(e).__name__}", problem=str(e)[:200], **ctx)
+        obj.ra = arr
         # null
         obj.r = None
         obj.u = None
@@ -457,6 +523,26 @@ def check_refs(X, sl, rnd, P):
         except Exception as e:  # noqa
             P.add("C08", f"union:assign-unionref-object:raised:{type(e).__name__}", problem=str(e)[:200], **ctx)
         obj.u = s1
+        # hybrid holder: bind X, bind None, bind the same X again (the slot must follow every step)
+        if rep == 0:
+            tagh = grammar.uniq("HR")
+            HT = type(f"{tagh}T", (X.HybridClass,), {"_xofields": {"a": X.Int64}})
+            HH = type(f"{tagh}H", (X.HybridClass,), {"_xofields": {"k": X.Int8, "r": X.Ref[HT]}})
+            hb = X.ContextCpu().new_buffer(64)
+            t1, t2 = HT(a=1, _buffer=hb), HT(a=2, _buffer=hb)
+            hh = HH(k=1, r=t1, _buffer=hb)
+            for step, tv in (("bind", t1), ("none", None), ("rebind-same", t1), ("other", t2), ("data", {"a": 9}), ("rebind-first", t1)):
+                hh.r = tv
+                cur = hh._xobject.r
+                ok = (cur is None) if tv is None else (cur is not None and (cur._offset == tv._xobject._offset if hasattr(tv, "_xobject") else cur.a == 9))
+                if not ok:
+                    P.add("C08", f"hybrid-ref-history:{step}", **ctx)
+                    break
+                if hasattr(tv, "_xobject"):
+                    tv.a = tv.a + 10
+                    if hh._xobject.r.a != tv.a:
+                        P.add("C08", f"hybrid-ref-history:{step}:write-not-visible", **ctx)
+                        break
         # growth
         want = plain(X, obj)
         store0 = buf.buffer
@@ -490,12 +576,26 @@ def check_copy(X, cls, val, rnd, P):
     """C09 copy-construction in the same buffer, another buffer, another context"""
     tk = type_key(X, cls)
     want = norm(X, cls, val)
-    for where in ("same-buffer", "other-buffer", "other-context"):
+    for where in ("same-buffer", "other-buffer", "other-context", "same-buffer-after-shrinking-strings"):
         buf, _ = make_buffer(X, rnd, "n")
         src = construct(cls, val, buf, "default", rnd)
-        if where == "same-buffer":
+        if where.endswith("shrinking-strings"):
+            # history before the copy: every string leaf gets a shorter text, so its capacity exceeds what the text needs
+            changed = False
+            for path, FT in list(leaves(X, src, cls)):
+                if FT is X.String and len(follow(X, src, path)) >= 2:
+                    short = follow(X, src, path)[:1]
+                    assign(X, src, path, short)
+                    want = replaced(want, path, short)
+                    changed = True
+            if not changed:
+                continue
+            where_buf = "same-buffer"
+        else:
+            where_buf = where
+        if where_buf == "same-buffer":
             dbuf = buf
-        elif where == "other-buffer":
+        elif where_buf == "other-buffer":
             dbuf = buf.context.new_buffer(16)
         else:
             dbuf = X.ContextCpu().new_buffer(16)
@@ -513,6 +613,14 @@ def check_copy(X, cls, val, rnd, P):
             continue
         if not eq(got, want):
             P.add("C09", f"copy-value:{tk}:{where}", got=repr(got)[:200], **ctx)
+        try:
+            vw = cls._from_buffer(cp._buffer, cp._offset)
+            if not eq(plain(X, vw), want):
+                P.add("C09", f"copy-view:{tk}:{where}", got=repr(plain(X, vw))[:200], **ctx)
+        except Exception as e:  # noqa
+            P.add("C09", f"copy-view:{tk}:raised:{type(e).__name__}", problem=str(e)[:200], **ctx)
+        if not eq(plain(X, src), want):
+            P.add("C09", f"copy-changed-source:{tk}:{where}", **ctx)
         s0, s1 = src._offset, src._offset + src._get_size()
         c0, c1 = cp._offset, cp._offset + cp._get_size()
         if cp._buffer is src._buffer and c0 < s1 and s0 < c1:
@@ -562,6 +670,7 @@ def run_all(tier, seed):
                 if ctx["form"] == "data":
                     try:
                         want2 = check_setters(X, cls, obj, view, buf, want, ctx, rnd, P)
+                        want2 = check_whole_assign(X, cls, obj, view, buf, want2, ctx, rnd, P)
                         check_misuse(X, cls, obj, buf, want2, ctx, rnd, P)
                     except Exception as e:  # noqa
                         P.add("C10", f"harness:{type_key(X, cls)}:{type(e).__name__}", problem=str(e)[:200], **ctx)
